@@ -1444,6 +1444,13 @@ M('C12', 'term_list_correlation_function_right looks the string operator up with
   "                opstr_k = None\n                if opstr_fill[need_JW] != 'Id':\n                    opstr_k = self.get_site(k).get_op(opstr_fill[need_JW])\n                for key, CL in CLs.items():\n                    CL = npc.tensordot(CL, B_ket, axes=['vR', 'vL'])\n                    if opstr_k is not None:\n",
   'LOOP-stale-read')
 
+M('C13', 'mix_and_decompose_2site: one-sided branches swapped (round-5 seed b)', 'tenpy/algorithms/mps_common.py',
+  "        elif mix_left:\n            theta_L = theta.replace_label('(p1.vR)', 'vR')", "        elif mix_right:\n            theta_L = theta.replace_label('(p1.vR)', 'vR')",
+  'HOOKS-mix-side')
+M('C13', 'UniformMPS.to_MPS canonicalises only with check_overlap (round-5 seed a)', 'tenpy/networks/uniform_mps.py',
+  "        MPS_B.canonical_form()\n        if check_overlap:\n", "        if check_overlap:\n            MPS_B.canonical_form()\n",
+  'HOOKS-final-canonical')
+
 # ---------------------------------------------------------------- C16 / C19
 M('C16', 'GMRES restart: relative residual norm used for normalisation (round-3 seed b)', KRY,
   """        self.total_error.append([npc.norm(self.rs[-1]) / self.b_norm])
